@@ -481,6 +481,19 @@ def run_check(pid, tier, seed):
                 lines.append("KNOWN-FINDING: property=%s %s %s (witness %s)" % (pid, f["id"], f["what"], rel))
 
         # ---- evidence ----------------------------------------------------
+        anchored_cov = {}
+        if cases and not getattr(mod, "NO_COVERAGE", False):
+            try:
+                step = max(1, len(cases) // 300)
+                sample = cases[::step][:300]
+                cj = os.path.join(workdir, "covcases.json")
+                oj = os.path.join(workdir, "cov.json")
+                json.dump(sample, open(cj, "w"))
+                subprocess.run([sys.executable, "-m", "vcheck.covrun", pid, cj, oj], timeout=300,
+                               capture_output=True, text=True)
+                anchored_cov = json.load(open(oj))
+            except Exception as e:  # evidence only
+                anchored_cov = {"error": str(e)[:200]}
         nontriv = set()
         for c in cases:
             if mod.nontrivial(c):
@@ -512,6 +525,7 @@ def run_check(pid, tier, seed):
             "disagreeing_cases": len(D), "cases_failing_statement": len(V), "cases_in_known_findings": len(K),
             "known_findings_reproduced": reproduced,
             "input_distribution": mod.distribution(cases) if hasattr(mod, "distribution") else {},
+            "anchored_line_coverage": anchored_cov,
             "glue_samples": {"run": len(extra), "failed": len(extra_bad), "examples": extra[:3]},
             "samples": samples,
             "explanation": getattr(mod, "EXPLANATION", ""),
